@@ -115,6 +115,10 @@ def execute(scn):
         if overlap:
             stats["reach.default_sets_overlap"] = 1
 
+    if not expect_reject:
+        from ..world import require_valid
+
+        require_valid(model, explicit)
     world = World(spec, scn["sched"])
     apply_pre_grads(world, scn.get("pre_grads", {}))
     before = world.grads()
@@ -138,7 +142,7 @@ def execute(scn):
         return {"violations": viols, "events": events, "stats": stats, "sets": sets, "sig": sig, "nontrivial": nontrivial}
 
     if not out["ok"]:
-        viols.append({"clause": "valid_default_call_raised", "step": "world", "details": out, "key": {"exc": out["exc"]}})
+        viols.append({"clause": "valid_default_call_raised", "step": "world", "details": out, "key": {"exc": out["exc"], "msg": (out.get("msg") or "")[:40]}})
         return {"violations": viols, "events": events, "stats": stats, "sets": sets, "sig": sig, "nontrivial": nontrivial}
 
     twin = World(spec, scn["twin_sched"], twin_offset=1 << 20)
@@ -147,7 +151,7 @@ def execute(scn):
     stats["api_calls"] += 1
     events.append(["twin", out2["ok"], out2["exc"]])
     if not out2["ok"]:
-        viols.append({"clause": "explicit_twin_call_raised", "step": "twin", "details": out2, "key": {"exc": out2["exc"]}})
+        viols.append({"clause": "explicit_twin_call_raised", "step": "twin", "details": out2, "key": {"exc": out2["exc"], "msg": (out2.get("msg") or "")[:40]}})
         return {"violations": viols, "events": events, "stats": stats, "sets": sets, "sig": sig, "nontrivial": nontrivial}
 
     for n in world.leaf_names:
